@@ -43,7 +43,8 @@ func fatAllScens(oracle string, quick bool, depth int) []*fatScen {
 	if depth >= 9 {
 		fd = 64
 	}
-	out = append(out, fatFillScenario(fatCfg{Type: 12, Size: 64 << 10}, oracle, fd), fatFillScenario(fatCfg{Type: 32, Size: 64 << 10, Start: 512}, oracle, fd))
+	// (sizes that are not a whole number of sectors/clusters: the last, partial cluster must never be handed out)
+	out = append(out, fatFillScenario(fatCfg{Type: 12, Size: 64<<10 + 300}, oracle, fd), fatFillScenario(fatCfg{Type: 32, Size: 64<<10 + 300, Start: 512}, oracle, fd))
 	if !quick {
 		out = append(out, fatFillScenario(fatCfg{Type: 16, Size: 4400 << 10, Start: 1 << 20}, oracle, fd))
 	}
